@@ -395,9 +395,42 @@ def nested_in_mapping():
     return out
 
 
+class Entry(State):
+    name: str
+    note: str | Missing = MISSING
+    tags: Sequence[str] = ("default",)
+    count: int | Missing | None = None
+
+
+def updated_with_missing():
+    """"replaces exactly the named attributes": MISSING is a value like any other replacement - it goes through the attribute's
+    validation (where it stands for "use the default"), exactly as in the constructor and in __replace__."""
+    out = []
+    e = Entry(name="a", note="remember", tags=["x", "y"], count=3)
+    for label, got, want in (
+            ("updated(note=MISSING).note", lambda: e.updated(note=MISSING).note, MISSING),
+            ("updated(tags=MISSING).tags", lambda: e.updated(tags=MISSING).tags, ("default",)),
+            ("updated(count=MISSING).count", lambda: e.updated(count=MISSING).count, None),
+            ("updated(count=None).count", lambda: e.updated(count=None).count, None),
+            ("updated(note=MISSING, name='c').name", lambda: e.updated(note=MISSING, name="c").name, "c"),
+            ("__replace__(note=MISSING).note", lambda: e.__replace__(note=MISSING).note, MISSING)):
+        try:
+            v = got()
+        except Exception as ex:  # noqa
+            out.append(f"{label} raised {ex!r}")
+            continue
+        if not ((v is want) if want is MISSING or want is None else v == want):
+            out.append(f"{label} is {v!r}, expected {want!r}")
+    if e.updated(note=MISSING) != Entry(name="a", tags=["x", "y"], count=3) or e.updated(note=MISSING) != e.__replace__(note=MISSING):
+        out.append("updated(note=MISSING) differs from the instance built without a note / from __replace__(note=MISSING)")
+    if (e.note, e.tags, e.count) != ("remember", ("x", "y"), 3):
+        out.append("the original changed")
+    return out
+
+
 def main():
     sys.stdin.read()
-    p = problems() or repeated_validation() or nested_unions() or nested_in_mapping()
+    p = problems() or repeated_validation() or nested_unions() or nested_in_mapping() or updated_with_missing()
     if p:
         print(json.dumps(dict(reproduced=True, detail=dict(problems=p[:5]), cases_tried=1)))
     else:
